@@ -121,6 +121,10 @@ enum Outcome {
     Panic(String),
     /// the two sibling tasks of one run disagree with each other
     SiblingsDisagree(Fingerprint, Fingerprint),
+    /// the run was stopped at the per-job time limit (or skipped after one): non-termination of
+    /// the code under test — possibly of the warm-up workload on OTHER data — says nothing
+    /// about run-to-run reproducibility and is never compared
+    NoInformation,
 }
 
 fn outcome(r: &JobResult) -> Outcome {
@@ -133,6 +137,7 @@ fn outcome(r: &JobResult) -> Outcome {
             }
         }
         Body::C20 { fps: Err(e), .. } => Outcome::Panic(e.clone()),
+        Body::Timeout { .. } | Body::Skipped => Outcome::NoInformation,
         _ => unreachable!(),
     }
 }
@@ -140,6 +145,7 @@ fn outcome(r: &JobResult) -> Outcome {
 /// `None` if equal, else (field, reference side, other side)
 fn differs(reference: &Outcome, other: &Outcome) -> Option<(String, String, String)> {
     match (reference, other) {
+        (Outcome::NoInformation, _) | (_, Outcome::NoInformation) => None,
         (Outcome::Fp(a), Outcome::Fp(b)) => a.first_diff(b),
         (_, Outcome::SiblingsDisagree(a, b)) => a.first_diff(b).map(|(f, x, y)| (format!("{f} (two sibling tasks of one run)"), x, y)),
         (Outcome::Panic(a), Outcome::Panic(b)) if a == b => None,
@@ -421,6 +427,9 @@ pub fn check(tier: &str, seed: u64, only: Option<&str>) -> i32 {
         let fr = crate::driver::run_jobs_fresh_each(&fj, nworkers);
         fresh_runs = fr.len();
         for (k, r) in fr.iter().enumerate() {
+            if matches!(results[picked[k]].body, Body::Skipped | Body::Timeout { .. }) || matches!(r.body, Body::Timeout { .. }) {
+                continue;
+            }
             if let Some(d) = differs(&outcome(&results[picked[k]]), &outcome(r)) {
                 fresh_mismatch.push((picked[k], d));
             }
@@ -442,6 +451,7 @@ pub fn check(tier: &str, seed: u64, only: Option<&str>) -> i32 {
     let mut controls_fired: BTreeMap<String, u64> = BTreeMap::new();
     let mut controls_seen: BTreeSet<String> = BTreeSet::new();
     let mut nocompare_crashes = Vec::new();
+    let mut nonterminating: BTreeSet<String> = BTreeSet::new();
     let mut kth_positions: BTreeSet<usize> = BTreeSet::new();
     let mut sim_time_ns = 0u128;
     let mut schedules: HashSet<u64> = HashSet::new();
@@ -451,10 +461,22 @@ pub fn check(tier: &str, seed: u64, only: Option<&str>) -> i32 {
         let s = &reg.scenarios[*si];
         let ref_idx = *idxs.iter().find(|&&i| planned.meta[i].2).expect("reference job");
         let ref_out = outcome(&results[ref_idx]);
+        if matches!(results[ref_idx].body, Body::Skipped) {
+            // the whole group was abandoned after a non-terminating run
+            continue;
+        }
         if s.kind != Kind::Claim {
             controls_seen.insert(s.name.clone());
         }
         for &i in idxs {
+            if matches!(results[i].body, Body::Skipped) {
+                *tot.entry("runs_skipped_because_their_scenario_did_not_terminate").or_default() += 1;
+                continue;
+            }
+            if matches!(results[i].body, Body::Timeout { .. }) {
+                *tot.entry("runs_stopped_for_non_termination").or_default() += 1;
+                nonterminating.insert(s.name.clone());
+            }
             evaluations += 1;
             let r = &results[i];
             let env = job_env(&planned.jobs[i]);
@@ -598,6 +620,9 @@ pub fn check(tier: &str, seed: u64, only: Option<&str>) -> i32 {
                 println!("       failing  : {} in {}", m.fail_side, m.env_fail.describe());
             }
         }
+    }
+    if !nonterminating.is_empty() {
+        println!("note: scenarios with a run that did not terminate within the per-job limit (stopped; never compared): {nonterminating:?}");
     }
     if !unreproducible.is_empty() {
         for u in &unreproducible {
